@@ -23,7 +23,8 @@ pub fn def() -> PropDef {
     }
 }
 
-const VARS: [&str; 7] = ["a", "b", "c", "d", "x", "y", "m"];
+// "g" and "size" are also function names: a name may be used in both roles in one program
+const VARS: [&str; 9] = ["a", "b", "c", "d", "x", "y", "m", "g", "size"];
 const FUNS: [&str; 4] = ["g", "h", "k", "size"];
 
 pub fn gen_src(rng: &mut Rng) -> String {
